@@ -201,7 +201,7 @@ theorem pushScalar_complete (ext : Ext) : ∀ (b : B) (x : SVal) (dt : DataType)
         refine ⟨.dictionary p (.leaf p' (.int t) v' (ivals ++ [(i : Int)])) (.bytes p'' ty v2 offs data) index, ?_, ?_⟩
         · rw [pushScalar]
           simp only [hs, hix]
-          exact (bind_ok _ _ _).2 ⟨_, hp, rfl⟩
+          exact (bind_ok _ _ _).2 ⟨_, (ctx_eq_ok _ _ _).2 hp, rfl⟩
         · simp only [room, keyRoom]; omega
       | none =>
         have hwv : WFB (.bytes p'' ty v2 offs data) := by simp only [WFB] at hwf; exact hwf.2.1
@@ -211,7 +211,7 @@ theorem pushScalar_complete (ext : Ext) : ∀ (b : B) (x : SVal) (dt : DataType)
         refine ⟨.dictionary p (.leaf p' (.int t) v' (ivals ++ [(index.length : Int)])) (.bytes p'' ty v2' offs' (data ++ strBytes s)) (index ++ [s]), ?_, ?_⟩
         · rw [pushScalar]
           simp only [hs, hix]
-          exact (bind_ok _ _ _).2 ⟨_, hpv, (bind_ok _ _ _).2 ⟨_, hp, rfl⟩⟩
+          exact (bind_ok _ _ _).2 ⟨_, (ctx_eq_ok _ _ _).2 hpv, (bind_ok _ _ _).2 ⟨_, (ctx_eq_ok _ _ _).2 hp, rfl⟩⟩
         · simp only [room, keyRoom, hl, List.length_append, List.length_singleton] at hkr ⊢; omega
   | .list p large fm v offs el, x, dt, n, md, lv, _, hs, _, _, hi => by
     simp only [Shape] at hs
